@@ -9,3 +9,4 @@ pub mod rules;
 pub mod cli;
 pub mod c01;
 pub mod fix;
+pub mod c10;
